@@ -286,6 +286,8 @@ def judgeBasic (st : JState) (caseLine : String) (ctoks otoks : List String) (ta
         let entered := modelEnteredHeaders k cfg buf
         let fs := judgeMsg k cfg cap buf real model adv entered
         let fs := if real == model then fs else fs ++ [⟨"MODEL", false, "full observation differs from model"⟩]
+        -- a call that did not return within the watchdog limit is also a violation of linear work (C20)
+        let fs := if otoks.headD "" == "TIMEOUT" then fs ++ [⟨"C20", true, "the call did not return within the watchdog limit (no forward progress)"⟩] else fs
         let st := (st.bump s!"{tagPrefix}cases.{kind}").bump s!"{tagPrefix}status.{kind}.{real.st.tag}"
         let st := if entered then st.bump s!"{tagPrefix}entered_headers.{kind}" else st
         let st := if real.st.isC || real.st.isP || adv > 1 then st.bump s!"nontrivial.{kind}" else st
